@@ -330,6 +330,10 @@ class Interp:
             return self.call_value(f.__func__, (f.__self__,) + tuple(args), kwargs)
         if is_repo_function(f):
             return self.call_closure(self.closure_of(f), args, kwargs)
+        if not isinstance(f, type) and is_repo_class(type(f)):
+            call = _static_lookup(type(f), "__call__")
+            if call is not None and is_repo_function(call):
+                return self.call_closure(self.closure_of(call), (f,) + tuple(args), kwargs)
         try:
             model = self.models.get(f)
         except TypeError:
